@@ -4,14 +4,14 @@
 #   (3) demo fails with the change, (4) demo passes without it.   Prints a one-line verdict and leaves the worktree WITHOUT the change.
 wt=$1
 cd $wt || exit 2
-git diff -- src include > /tmp/vs_cur.diff
-if ! diff -q /tmp/vs_cur.diff seed/patch.diff >/dev/null; then echo "NOTE: worktree diff differs from seed/patch.diff; resetting to patch"; git checkout -- src include; git apply seed/patch.diff || { echo "VERDICT $wt patch-does-not-apply"; exit 1; }; fi
+git diff -- src include > $wt/seed/.vs_cur.diff
+if ! diff -q $wt/seed/.vs_cur.diff seed/patch.diff >/dev/null; then echo "NOTE: worktree diff differs from seed/patch.diff; resetting to patch"; git checkout -- src include; git apply seed/patch.diff || { echo "VERDICT $wt patch-does-not-apply"; exit 1; }; fi
 cmake -G Ninja -S $wt -B $wt/_build -DCMAKE_BUILD_TYPE=Release >/dev/null 2>&1
 cmake --build $wt/_build >/dev/null 2>&1 || { echo "VERDICT $wt build-failed"; exit 1; }
 res=$(ctest --test-dir $wt/_build -j8 --timeout 900 2>&1)
 passed=$(echo "$res" | grep -o "[0-9]* tests failed out of [0-9]*")
 failing=$(echo "$res" | grep "(Failed)\|(Timeout)\|(SEGFAULT)\|Exception" | awk '{print $3}' | sort | tr '\n' ' ')
-bash seed/run.sh >/tmp/vs_with.log 2>&1; with=$?
+bash seed/run.sh >$wt/seed/.vs_with.log 2>&1; with=$?
 git apply -R seed/patch.diff || { echo "VERDICT $wt cannot-revert"; exit 1; }
-bash seed/run.sh >/tmp/vs_without.log 2>&1; without=$?
+bash seed/run.sh >$wt/seed/.vs_without.log 2>&1; without=$?
 echo "VERDICT $wt tests=[$passed] failing=[$failing] demo_with_change_exit=$with demo_without_change_exit=$without"
